@@ -118,9 +118,12 @@ func c08Gen(r *Rng, maxEvents int) c08History {
 	exists := map[int]bool{}
 	open := map[int]bool{}
 	dirty := map[int]bool{}
+	onDisk := map[int]string{} // variant currently on disk
+	bufVar := map[int]string{} // variant of the last unsaved edit
 	for i := 0; i < n; i++ {
 		if r.Chance(4, 5) {
 			h.Init[c08Rel(i)] = r.Pick(c08VariantNames)
+			onDisk[i] = h.Init[c08Rel(i)]
 			exists[i] = true
 		}
 	}
@@ -133,12 +136,16 @@ func c08Gen(r *Rng, maxEvents int) c08History {
 		case k == 0:
 			if !exists[i] {
 				exists[i] = true
-				return c08Event{Op: "create", File: rel, Variant: r.Pick(c08VariantNames)}, true
+				onDisk[i] = r.Pick(c08VariantNames)
+				return c08Event{Op: "create", File: rel, Variant: onDisk[i]}, true
 			}
 		case k <= 2:
 			// external change of a file that is not open, or open and dirty (an open clean document would be reloaded by the editor)
 			if exists[i] && (!open[i] || dirty[i]) {
-				return c08Event{Op: "change", File: rel, Variant: r.Pick(c08VariantNames)}, true
+				if !r.Chance(1, 4) { // one in four is a touch: announced as changed, bytes identical
+					onDisk[i] = r.Pick(c08VariantNames)
+				}
+				return c08Event{Op: "change", File: rel, Variant: onDisk[i]}, true
 			}
 		case k == 3:
 			if exists[i] && !open[i] {
@@ -153,11 +160,13 @@ func c08Gen(r *Rng, maxEvents int) c08History {
 		case k <= 9:
 			if open[i] {
 				dirty[i] = true
-				return c08Event{Op: "edit", File: rel, Variant: r.Pick(c08VariantNames)}, true
+				bufVar[i] = r.Pick(c08VariantNames)
+				return c08Event{Op: "edit", File: rel, Variant: bufVar[i]}, true
 			}
 		case k <= 11:
 			if open[i] && dirty[i] {
 				dirty[i] = false
+				onDisk[i] = bufVar[i]
 				return c08Event{Op: "save", File: rel}, true
 			}
 		case k == 12:
@@ -168,21 +177,30 @@ func c08Gen(r *Rng, maxEvents int) c08History {
 			}
 		default:
 			if allowBatch {
-				var bb []c08Event
-				for _, ii := range r.Perm(n)[:r.Range(2, 3)] {
+				var bb, touches []c08Event
+				onlyChanges := r.Bool() // half of the batches consist of `changed` events only (the selective re-analysis path)
+				for _, ii := range r.Perm(n)[:r.Range(2, min(4, n))] {
 					rl := c08Rel(ii)
 					if !exists[ii] {
+						if onlyChanges {
+							continue
+						}
 						exists[ii] = true
-						bb = append(bb, c08Event{Op: "create", File: rl, Variant: r.Pick(c08VariantNames)})
+						onDisk[ii] = r.Pick(c08VariantNames)
+						bb = append(bb, c08Event{Op: "create", File: rl, Variant: onDisk[ii]})
 					} else if !open[ii] {
-						if r.Bool() {
+						if !onlyChanges && r.Bool() {
 							exists[ii] = false
 							bb = append(bb, c08Event{Op: "delete", File: rl})
+						} else if r.Chance(1, 3) {
+							touches = append(touches, c08Event{Op: "change", File: rl, Variant: onDisk[ii]}) // a touch: identical bytes
 						} else {
-							bb = append(bb, c08Event{Op: "change", File: rl, Variant: r.Pick(c08VariantNames)})
+							onDisk[ii] = r.Pick(c08VariantNames)
+							bb = append(bb, c08Event{Op: "change", File: rl, Variant: onDisk[ii]})
 						}
 					}
 				}
+				bb = append(bb, touches...) // touched files last: their (unchanged) result tends to come back last
 				if len(bb) >= 2 {
 					return c08Event{Op: "batch", Batch: bb}, true
 				}
@@ -201,6 +219,7 @@ func c08Gen(r *Rng, maxEvents int) c08History {
 	// end quiescent: save or close every dirty document
 	for i := 0; i < n; i++ {
 		if dirty[i] {
+			onDisk[i] = bufVar[i]
 			h.Events = append(h.Events, c08Event{Op: "save", File: c08Rel(i)})
 			dirty[i] = false
 		}
